@@ -61,8 +61,8 @@ def landmarks(prog):
     def same_arg(pname):
         vals = set(render(c.call_args()[L.idx[pname]]) for c in L.store_calls)
         return vals
-    b = same_arg("comment_before_key")
-    a = same_arg("comment_after_value")
+    b = same_arg("comment_before_key") - {"NULL"}      # a call that passes no pending comment at all (NULL) does not name another buffer
+    a = same_arg("comment_after_value") - {"NULL"}
     ln = same_arg("line_number")
     if len(b) != 1 or len(a) != 1:
         raise Inconclusive("read_file: store() calls disagree on the pending comment buffers: %s / %s" % (b, a))
@@ -132,3 +132,38 @@ def line_end_rule(prog, ctx, rule, L=None):
                          % (render(st)[:70], "of %r" % chars if chars is not None else "match of %s" % render(a[1])), key="line-cut:%s" % render(a[0]))
     if not n:
         ctx.ok(rule, "the line is cut only at its end", f.where, "no cut of the line buffer at a searched-for character")
+
+
+def delimiter_membership_rule(prog, ctx, rule, L=None):
+    """Whether the character behind the key is a delimiter is decided by membership in the delimiter set.  Blanks are left out of
+    that decision only for a MIXED set (blanks and other characters: `key = value` with the blank before `=`); for a set that has
+    only blanks - or only other characters - a further `!isspace()` condition makes the delimiter invisible: `key value` lines are
+    then taken for continuations of the entry above."""
+    L = L or landmarks(prog)
+    f, cfg = L.fn, L.cfg
+    n = 0
+    for lhs, rhs, st in f.assignments():
+        if rhs is None or isinstance(lhs, dict) and False:
+            continue
+        txt = render(rhs)
+        if "strchr(delim" not in txt:
+            continue
+        if not st.within(L.loop):
+            continue
+        n += 1
+        name = lhs["name"] if isinstance(lhs, dict) else render(lhs)
+        excl = "_ISspace" in txt or "isspace" in txt or "isblank" in txt
+        if not excl:
+            ctx.ok(rule, "`%s` is membership in the delimiter set" % name, st.where, txt[:70])
+            continue
+        ok1, c1 = cfg.all_paths_cut(cfg.block_of(st), lambda lit, b, i: lit is not None and lit.kind == "truth" and lit.atom == "has_wsp" and lit.pol, start=L.header)
+        ok2, c2 = cfg.all_paths_cut(cfg.block_of(st), lambda lit, b, i: lit is not None and lit.kind == "truth" and lit.atom == "has_nonwsp" and lit.pol, start=L.header)
+        if ok1 and c1 and ok2 and c2:
+            ctx.ok(rule, "`%s` leaves blanks out only for a mixed delimiter set" % name, st.where, "behind has_wsp && has_nonwsp")
+        else:
+            ctx.fail(rule, "`%s` leaves blanks out only for a mixed delimiter set" % name, st.where,
+                     "`%s = %s` excludes blanks also when the delimiter set consists of blanks only: with delimiter ' ' or '\\t' no delimiter is ever seen, a "
+                     "`key value` line is appended to the entry above it - what is written with such a set does not read back" % (name, txt[:60]),
+                     key="delim-blank-excluded")
+    if n == 0:
+        ctx.inconclusive(rule, "the delimiter decision", f.where, "no assignment from strchr(delim, ..) found in the line loop")
